@@ -49,6 +49,16 @@ def filter_like(prop, tier, seed, replay, unk):
     rc, o = sh(cmd, timeout=3000)
     stats = json.loads(o.strip().splitlines()[-1])
     tracefile = os.path.join(out, "trace.ndjson")
+    if not replay and not unk:
+        # C09 also sees attribute types no decoder is registered for (shorter sequences)
+        out2 = os.path.join(wd, "rec-unk")
+        m2, s2 = (4, 800) if tier == "quick" else (5, 6000)
+        rc, o = sh("%s/drive-codec filter --maxlen %d --sample %d --samplelen 8 --seed %d --unk --out %s" % (
+            bindir, m2, s2, seed + 1, out2), timeout=3000)
+        stats["with_unregistered_types"] = json.loads(o.strip().splitlines()[-1])
+        with open(tracefile, "a") as f, open(os.path.join(out2, "trace.ndjson")) as g:
+            for l in g:
+                f.write(l)
     bad, consumed, total, _ = tlc_trace("TraceFilter.tla", "TraceFilter.cfg", tracefile, wd,
                                         timeout=6000)
     recs = None
